@@ -154,7 +154,7 @@ def check (x : Step) : List (String × String) :=
     (x.granted > 0 && post.st == 1 && !(post.atok == x.newat), "C07.pair_split", "stored access token is not the one just issued"),
     -- C10 ---------------------------------------------------------------------------------------------------------------
     (post.st != 0 && post.ttl ≤ 0, "C10.no_ttl.session", "session entry without expiry"),
-    (post.st == 1 && decide (post.ttl > post.ends - now + 6 * second + x.lag), "C10.ttl_beyond_lifetime", "TTL exceeds creation + max lifetime"),
+    (post.st == 1 && decide (post.ttl > post.ends - now + 2 * second + x.lag), "C10.ttl_beyond_lifetime", "TTL exceeds creation + max lifetime"),
     (pre.st == 1 && post.st == 1 && pre.sid == post.sid && decide (post.ttl > pre.ttl + second), "C10.ttl_beyond_lifetime", "TTL extended by an update"),
     -- C11 ---------------------------------------------------------------------------------------------------------------
     (rejected && isProxy && wrote, "C11.rejected_refresh_still_auth", "provider rejected the refresh token (4xx) but the request was forwarded with a token"),
